@@ -119,6 +119,9 @@ func runTimed(sc timedScen, idx int) (*timedTrace, error) {
 		switch sc.Scen {
 		case "silent":
 			write(s[:5])
+		case "exact":
+			// one segment / datagram of exactly one prefetch chunk, then silence
+			write(s[:2048])
 		case "trickle":
 			iv := T / 8
 			if iv < 2*time.Millisecond {
